@@ -9,7 +9,7 @@ env = dict(os.environ, PVC_MODE='concrete', PYTHONPATH='/verif:/repo')
 code = "import sys,json; sys.path.insert(0,'/verif'); import importlib; importlib.import_module('contracts.%s'); from pvc.registry import HARNESSES; print(json.dumps([[k,len(h.variants)] for k,h in HARNESSES.items() if h.prop=='%s']))" % (prop.lower(), prop)
 hs = json.loads(subprocess.run(['/venv/bin/python', '-c', code], capture_output=True, text=True, env=env, cwd='/verif').stdout.strip().splitlines()[-1])
 jobs = [{"h": k, "vi": i} for k, n in hs if re.search(rx, k) for i in range(n)]
-p = subprocess.run(['/venv/bin/python', '-m', 'pvc.replay', '--sweep', json.dumps({"prop": prop, "jobs": jobs, "seeds": seeds, "box": 5})],
+p = subprocess.run(['/venv/bin/python', '-m', 'pvc.replay', '--sweep', json.dumps({"prop": prop, "jobs": jobs, "seeds": seeds, "box": int(os.environ.get("BOX", "5"))})],
                    capture_output=True, text=True, cwd='/verif', env=env)
 out = [l for l in p.stdout.splitlines() if l.startswith('SWEEP-RESULT')]
 if not out:
